@@ -100,7 +100,7 @@ class ProgGen:
         return f"{prefix}{self.counter}"
 
     def small_ty(self, depth=1):
-        return self.tg.ty(depth)
+        return self.tg.ty(0 if "core" in self.features else depth)
 
     def int_ty(self):
         return INT(self.rng.choice(list(T.INTS)))
@@ -170,6 +170,10 @@ class ProgGen:
                  ["enum", ty["name"], variant, False, [e.ast for e in es]])
 
     def lit(self, ty, boundary=0.3):
+        if "core" in self.features and ty["k"] == "int" and self.rng.random() < 0.7:
+            # small numbers: most checked additions and subtractions of the fragment then complete
+            lo, hi = T.int_range(ty["t"])
+            return self.val_expr(ty, self.rng.choice([v for v in (0, 1, 2, 3, 5, 7, 10, -1, -2, -5) if lo <= v <= hi]))
         return self.val_expr(ty, T.rand_value(self.rng, ty, boundary))
 
     # ------------------------------------------------------------------ expressions
@@ -191,7 +195,10 @@ class ProgGen:
             choices += ["call", "call"]
         if any(t["k"] == "array" and t["elem"] == ty and t["n"] > 0 for _, t in self.components(1)):
             choices += ["index", "index"]
-        if k == "bool":
+        if "core" in self.features:
+            # the fragment of Model/BitSem.lean
+            choices = ["if", "block"] + (["cmp", "cmp", "eq", "logic", "logic", "not"] if k == "bool" else ["arith", "arith", "arith"] + (["unary"] if signed(ty) else []))
+        elif k == "bool":
             choices += ["cmp", "cmp", "eq", "logic", "logic", "not", "castbool"]
         elif k == "int":
             choices += ["arith", "arith", "arith", "bit", "shift", "cast", "cast", "unary"]
@@ -222,7 +229,7 @@ class ProgGen:
         return E(f"{ta} {op} {tb}", ["bin", op, opty, a.ast, b.ast], lvl)
 
     def e_arith(self, ty, d, pure):
-        op = self.rng.choice(["+", "-", "*", "/", "%", "+", "-"])
+        op = self.rng.choice(["+", "-"] if "core" in self.features else ["+", "-", "*", "/", "%", "+", "-"])
         a = self.expr(ty, d - 1, pure)
         if op in ("/", "%") and self.rng.random() < 0.7:
             lo, hi = T.int_range(ty["t"])
@@ -248,7 +255,7 @@ class ProgGen:
 
     def e_unary(self, ty, d, pure):
         a = self.expr(ty, d - 1, pure)
-        if signed(ty) and self.rng.random() < 0.5:
+        if signed(ty) and (self.rng.random() < 0.5 or "core" in self.features):
             return E("-" + a.at(12) if not a.text.startswith("-") else "-(" + a.text + ")", ["un", "neg", ty, a.ast], 12)
         return E("!" + a.at(12), ["un", "not", ty, a.ast], 12)
 
@@ -268,7 +275,7 @@ class ProgGen:
 
     def e_cmp(self, ty, d, pure):
         t = self.int_ty()
-        op = self.rng.choice(["<", ">", "<=", ">="])
+        op = self.rng.choice(["<", ">"] if "core" in self.features else ["<", ">", "<=", ">="])
         # `<=` / `>=` are expanded by the parser into two copies of the operands: keep those pure
         return self.binop(op, t, self.expr(t, d - 1, True), self.expr(t, d - 1, True))
 
